@@ -269,6 +269,14 @@ class Universe:
         self.fail_stores = {}
         self.inflight = 0
         self.max_inflight = 0
+        self.all_inflight = 0      # calls + store reads/writes executing right now
+        self.max_all_inflight = 0
+        self.mt_inflight = 0       # modified-time queries executing right now
+        self.max_mt_inflight = 0
+        self.slow = 0.0            # seconds every operation lingers (so that operations overlap)
+        self.attempts = {}         # (kind, node) -> attempts in this run
+        self.last_exc = {}         # (kind, node) -> the exception object its last failed attempt raised
+        self.injected = []         # every exception object the harness raised in this run
         self.in_call_hook = None
         self.present = {}
         self.value = {}
@@ -315,6 +323,35 @@ class Universe:
         self.fail_stores = dict(fail_stores or {})
         self.inflight = 0
         self.max_inflight = 0
+        self.all_inflight = self.max_all_inflight = self.mt_inflight = self.max_mt_inflight = 0
+        self.attempts, self.last_exc, self.injected = {}, {}, []
+
+    # ---- C10 bookkeeping: what executes at the same time, attempts, raised exceptions ------
+    def enter(self, kind, n):
+        with self.lock:
+            self.attempts[(kind, n)] = self.attempts.get((kind, n), 0) + 1
+            if kind == "mtime":
+                self.mt_inflight += 1
+                self.max_mt_inflight = max(self.max_mt_inflight, self.mt_inflight)
+            else:
+                self.all_inflight += 1
+                self.max_all_inflight = max(self.max_all_inflight, self.all_inflight)
+        if self.slow:
+            import time
+
+            time.sleep(self.slow)
+
+    def leave(self, kind, n):
+        with self.lock:
+            if kind == "mtime":
+                self.mt_inflight -= 1
+            else:
+                self.all_inflight -= 1
+
+    def raising(self, kind, n, exc):
+        self.last_exc[(kind, n)] = exc
+        self.injected.append(exc)
+        return exc
 
     # ---- construction ----------------------------------------------------------------
     def _build(self):
@@ -328,6 +365,27 @@ class Universe:
                 self.n = n
 
             def read(self):
+                U.enter("read", self.n)
+                try:
+                    return self._read()
+                finally:
+                    U.leave("read", self.n)
+
+            def write(self, value):
+                U.enter("write", self.n)
+                try:
+                    return self._write(value)
+                finally:
+                    U.leave("write", self.n)
+
+            def get_modified_time(self):
+                U.enter("mtime", self.n)
+                try:
+                    return self._mtime()
+                finally:
+                    U.leave("mtime", self.n)
+
+            def _read(self):
                 n = self.n
                 with U.lock:
                     f = U._op()
@@ -337,7 +395,7 @@ class Universe:
                     if U.fail_stores.get(("read", n), 0) > 0:
                         U.fail_stores[("read", n)] -= 1
                         U.log("readfail", n=n)
-                        raise OSError(f"injected read failure {n}")
+                        raise U.raising("read", n, OSError(f"injected read failure {n} attempt {U.attempts.get(('read', n))}"))
                     if not U.present.get(n):
                         U.log("readfail", n=n, missing=True)
                         raise FileNotFoundError(f"store {n} is empty")
@@ -349,7 +407,7 @@ class Universe:
                         U._trip(f)
                     return v
 
-            def write(self, value):
+            def _write(self, value):
                 n = self.n
                 with U.lock:
                     f = U._op()
@@ -359,7 +417,7 @@ class Universe:
                     if U.fail_stores.get(("write", n), 0) > 0:
                         U.fail_stores[("write", n)] -= 1
                         U.log("writefail", n=n)
-                        raise OSError(f"injected write failure {n}")
+                        raise U.raising("write", n, OSError(f"injected write failure {n} attempt {U.attempts.get(('write', n))}"))
                     U.clock += 1
                     U.present[n] = True
                     U.value[n] = value
@@ -368,7 +426,7 @@ class Universe:
                     if f:
                         U._trip(f)
 
-            def get_modified_time(self):
+            def _mtime(self):
                 n = self.n
                 with U.lock:
                     f = U._op()
@@ -378,7 +436,7 @@ class Universe:
                     if U.fail_stores.get(("mtime", n), 0) > 0:
                         U.fail_stores[("mtime", n)] -= 1
                         U.log("mtimefail", n=n)
-                        raise OSError(f"injected mtime failure {n}")
+                        raise U.raising("mtime", n, OSError(f"injected mtime failure {n} attempt {U.attempts.get(('mtime', n))}"))
                     r = U.rank.get(n, 0) if U.present.get(n) else 0
                     U.log("mtime", n=n, r=r)
                     if f:
@@ -392,6 +450,13 @@ class Universe:
             sd = s["side"][c - 1]
 
             def f(*args, **kwargs):
+                U.enter("call", c)
+                try:
+                    return body(*args, **kwargs)
+                finally:
+                    U.leave("call", c)
+
+            def body(*args, **kwargs):
                 with U.lock:
                     fl = U._op()
                     U.log("start", n=c)
@@ -411,7 +476,7 @@ class Universe:
                     if U.fail_calls.get(c, 0) > 0:
                         U.fail_calls[c] -= 1
                         U.log("endfail", n=c)
-                        raise CallFault(f"injected failure of call {c}")
+                        raise U.raising("call", c, CallFault(f"injected failure of call {c} attempt {U.attempts.get(('call', c))}"))
                     vals = list(args) + list(kwargs.values())
                     good = all(_is_term(x) for x in vals)
                     v = T(c, 0, vals) if good else T(-2, 0, [])
